@@ -93,11 +93,31 @@ class NextName(Contract):
             return {"self": me}
         yield Scenario("any", setup)
 
+    def frame(self, eng, st, a):
+        st.heap.havoc_at("analysis_count", a.self.z)
+
+    def p_frame(self, eng, st0, st, a, res):
+        """nothing but this exporter's counter changes"""
+        cs = []
+        for f in st.heap.schema:
+            if f.startswith("$"):
+                continue
+            try:
+                a1, a0 = st.heap.arr(f), st0.heap.arr(f)
+            except Exception:
+                continue
+            if f == "analysis_count":
+                r = z3.Int("qr")
+                cs.append(z3.ForAll([r], z3.Implies(r != a.self.z, z3.Select(a1, r) == z3.Select(a0, r))))
+            else:
+                cs.append(a1 == a0)
+        return z3.And(cs)
+
     def p_name(self, eng, st0, st, a, res):
         k = st0.heap.get("analysis_count", a.self.z)
         return z3.And(zstr(res) == z3.Concat(z3.StringVal("Analysis"), z3.IntToStr(k)),
                       st.heap.get("analysis_count", a.self.z) == k + 1)
-    posts = property(lambda self: [("name-and-counter", self.p_name)])
+    posts = property(lambda self: [("name-and-counter", self.p_name), ("frame", self.p_frame)])
 
 
 class SweepVariable(Contract):
@@ -350,3 +370,89 @@ def attr_engine():
 
 
 VERIFY_ATTR = [ExportAttr()]
+
+
+# ---------------------------------------------------------------------------------------------------------------------
+# Named or freshly named: export_op / export_tran carry the analysis' own name when it has one and draw the next
+# Analysis<k> otherwise; export_tran passes tstop / tstep through export_float.
+# ---------------------------------------------------------------------------------------------------------------------
+FLT = z3.Function("export_float_of", z3.IntSort(), z3.RealSort())
+
+
+class ExportFloatLeaf(Contract):
+    key = "hdl21.sim.proto:export_float"
+    raises = (TypeError, ValueError)
+
+    def scenarios(self, eng):
+        return []
+
+    def apply(self, eng, st, args, kwargs, node=None):
+        v = args[0]
+        if v is None:
+            import fractions
+            return [(st, fractions.Fraction(0))]      # 0.0: the protobuf default (floats are modelled as exact reals)
+        if isinstance(v, SRef):
+            return [(st, SReal(FLT(v.z)))]
+        raise Unsupported("export_float of a non-object", node)
+
+
+class NamedAnalysis(Contract):
+    props = ("C17",)
+    pure = False
+    raises = (TypeError, ValueError)
+    returns = "ref"
+
+    def __init__(self, meth, cls, rec, floats=()):
+        self.key = "hdl21.sim.proto:SimProtoExporter." + meth
+        self.argname = {"export_op": "op", "export_tran": "tran"}[meth]
+        self.cls, self.rec, self.floats = cls, rec, floats
+        self.result_classes = (rec,)
+
+    def scenarios(self, eng):
+        def setup(eng, st):
+            me = sym_ref(st, "self", (SimProtoExporter,))
+            st.assume(st.heap.get("analysis_count", me.z) >= 0)
+            an = sym_ref(st, "an", (self.cls,))
+            for f in self.floats:
+                eng.field_classes[f] = (h.Prefixed,)
+            return {"self": me, self.argname: an}
+        yield Scenario("named-or-not", setup)
+
+    def p_name(self, eng, st0, st, a, res):
+        an = getattr(a, self.argname)
+        none0 = st0.heap.get("name$none", an.z)
+        nm0 = st0.heap.get("name", an.z)
+        k0 = st0.heap.get("analysis_count", a.self.z)
+        has = z3.And(z3.Not(none0), z3.Length(nm0) > 0)
+        got = st.heap.get("analysis_name", res.z)
+        return z3.And(z3.Implies(has, z3.And(got == nm0, st.heap.get("analysis_count", a.self.z) == k0)),
+                      z3.Implies(z3.Not(has), z3.And(got == z3.Concat(z3.StringVal("Analysis"), z3.IntToStr(k0)),
+                                                     st.heap.get("analysis_count", a.self.z) == k0 + 1)))
+
+    def p_values(self, eng, st0, st, a, res):
+        an = getattr(a, self.argname)
+        cs = []
+        for f in self.floats:
+            src = st0.heap.get(f, an.z)
+            cs.append(z3.If(src == NULL, st.heap.get("TranInput." + f, res.z) == 0, st.heap.get("TranInput." + f, res.z) == FLT(src)))
+        return z3.And(cs) if cs else True
+    posts = property(lambda self: [("own-name-or-next-fresh-name", self.p_name), ("values-through-export_float", self.p_values)])
+
+
+import hdl21 as h  # noqa: E402
+
+
+def named_engine():
+    schema = dict(SCHEMA_EXTRA)
+    schema.update({"analysis_count": "int", "analysis_name": "str", "tstop": "ref", "tstep": "ref",
+                   "TranInput.tstop": "real", "TranInput.tstep": "real"})
+    eng = mk_engine(contracts=[NextName(), ExportFloatLeaf()], schema_extra=schema)
+    orig = eng.field_key
+
+    def field_key(st, ref, field):
+        return orig(st, ref, field)
+    return eng
+
+
+VERIFY_NAMED = [NamedAnalysis("export_op", data.Op, vsp.OpInput), NamedAnalysis("export_tran", data.Tran, vsp.TranInput,
+                                                                               ("tstop", "tstep"))]
